@@ -208,6 +208,16 @@ class World:
                 )
                 raise EXC[f["exc"]](f"injected {f['exc']} at callback {f['k']} ({kind})")
 
+    def _peer_for(self, entry):
+        p = self.plan or {}
+        peers = list(p.get("peers") or [])
+        if "peer" in p:
+            peers.append(p["peer"])
+        for q in peers:
+            if q.get("entry", 0) == entry:
+                return q
+        return None
+
     def _wrap(self, fn, kind):
         if fn is None:
             return None
@@ -273,10 +283,7 @@ class World:
                 d["jac"] = self._wrap(c["jac"], "cjac")
             wcons.append(d)
 
-        p = self.plan or {}
-        peer = p.get("peer")
-        if peer and peer.get("entry", 0) != my_entry:
-            peer = None
+        peer = self._peer_for(my_entry)
         opts = dict(options) if options else {}
         left = None
         try:
@@ -395,10 +402,7 @@ class World:
         }
         self.events.append(ev)
         self._maybe_raise("entry")
-        p = self.plan or {}
-        peer = p.get("peer")
-        if peer and peer.get("entry", 0) != my_entry:
-            peer = None
+        peer = self._peer_for(my_entry)
         try:
             if peer and peer["mode"] == "truncate":
                 o = dict(kw.get("options") or {})
